@@ -399,6 +399,11 @@ func convertFileResult[T any, R any](result any) (R, error) {
 func convertToFileConstraintType[T any, R any](value any) R {
 	var zero R
 
+	// A nil interface cannot be asserted to R (not even to any).
+	if value == nil {
+		return zero
+	}
+
 	// For any type (R = any), return the value directly.
 	if reflect.TypeFor[R]() == reflect.TypeFor[any]() {
 		return any(value).(R) //nolint:unconvert // Required for generic type constraint conversion
